@@ -59,7 +59,12 @@ class Analysis:
         kw.setdefault('exc_parents', r.exc_parents)
         if self.tier == 'thorough':
             kw.setdefault('loop_bound', 2)
-        return Enumerator(self.model, **kw)
+        keep = kw.pop('keep', None)
+        en = Enumerator(self.model, **kw)
+        if keep is not None:
+            names = set(keep) if not callable(keep) else None
+            en.keep = keep if callable(keep) else (lambda n, v, f: n in names)
+        return en
 
     def paths(self, en, qual, ctx=None, args=None):
         fi = self.model.func(qual) if isinstance(qual, str) else qual
